@@ -643,6 +643,13 @@ func TestMC_C07(t *testing.T) {
 			return w
 		}})
 	}
+	// failed engine start (resource exhaustion, failed registrations): nothing may leak or be closed twice
+	for _, loops := range []int{1, 2} {
+		loops := loops
+		name := fmt.Sprintf("startup-fault/%d-loops", loops)
+		cfgs = append(cfgs, sched.Config{Property: "C07", Name: name, Bounds: []sched.Bound{{PB: 0, DB: 0}, {PB: 0, DB: 1}, {PB: 1, DB: 1}}, Horizon: 40000, Deadline: seqmc.Deadline(), DelayBounded: true,
+			New: func() sched.Scenario { w := startupFaultWorld(loops, false); w.name = name; return w }})
+	}
 	byName := func(name string) *sched.Config {
 		for i := range cfgs {
 			if cfgs[i].Name == name {
